@@ -1061,7 +1061,10 @@ class Machine:
             return self.call_fn(fn, args)
         ci.key = key
         self.used_contracts[c.__name__] = self.used_contracts.get(c.__name__, 0) + 1
-        return c(self, args, ci)
+        try:
+            return c(self, args, ci)
+        except (TypeError, AttributeError) as e:
+            return self.uninterpreted_app(c.__name__, args, dest_ty, e)
 
     def call_value(self, f, args):
         """call a closure / fn item / python stand-in with already spread args"""
@@ -1098,6 +1101,30 @@ class Machine:
                 raise EncoderGap('no contract for fn item `%s`' % fv.path)
             return c(self, list(args), ci)
         raise EncoderGap('call of non-callable %r' % (fv,))
+
+    def uninterpreted_app(self, name, args, dest_ty, exc):
+        """a string contract applied to an opaque string: the result is an uninterpreted function of the arguments"""
+        from .models_std import OStr
+        vals = []
+        opaque = False
+        for a in args:
+            v = self.load(a) if isinstance(a, Ref) else a
+            if isinstance(v, OStr):
+                opaque = True
+                vals.append(v.term)
+            else:
+                vals.append(repr(v))
+        if not opaque:
+            raise exc
+        h = head_ident(dest_ty) if dest_ty else ''
+        if h in ('str', 'String', 'EcoString'):
+            return OStr(('app', name, tuple(vals)))
+        key = '%s(%r)' % (name, tuple(vals))
+        if h == 'bool':
+            return z3.Bool('uf_' + key)
+        if h in INT_BITS:
+            return z3.BitVec('uf_' + key, INT_BITS[h])
+        raise EncoderGap('%s applied to an opaque string (result type %s)' % (name, dest_ty))
 
     # -- panics (for contracts) ---------------------------------------------------
     def panic_if(self, cond, msg):
